@@ -237,6 +237,58 @@ func checkSeqResponses(h *seqHarness, x *vs.Exec) []Viol {
 	return v
 }
 
+// c01Restart: the same Server serves a first connection, is waited for, and is started again on a fresh
+// channel (which WaitStatus documents as allowed); the message sequence is sent on the SECOND connection.
+func c01Restart(tokens []string, conc int, b Bounds) *Scenario {
+	return &Scenario{
+		Name:   fmt.Sprintf("restart then seq{%s} conc=%d", tokensName(tokens), conc),
+		Params: map[string]any{"messages": tokens, "concurrency": conc, "restart": true},
+		Bounds: b,
+		New: func() *Instance {
+			h := &seqHarness{msgs: buildSeq(tokens), gates: NewGates()}
+			body := func() {
+				srv := jrpc2.NewServer(anyAssigner{h.handler()}, &jrpc2.ServerOptions{Concurrency: conc})
+				lib0, peer0, _ := NewPipe(PipeOpts{Name: "srv0", CloseUnblocksRecv: true, Quiet: true})
+				srv.Start(lib0)
+				peer0.Send([]byte(`{"jsonrpc":"2.0","id":"first","method":"warm"}`))
+				peer0.Recv()
+				peer0.Close()
+				srv.WaitStatus()
+				lib, peer, pipe := NewPipe(PipeOpts{Name: "srv", CloseUnblocksRecv: true})
+				h.pipe, h.peer = pipe, peer
+				srv.Start(lib)
+				vs.GoNamed("peer", func() {
+					for i, m := range h.msgs {
+						peer.Send([]byte(m.JSON))
+						vs.Note("in", fmt.Sprint(i))
+					}
+					vs.AwaitQuiescence()
+					vs.Note("quiet")
+					peer.Close()
+				})
+				st := srv.WaitStatus()
+				vs.Note("status", fmt.Sprintf("stopped=%v closed=%v err=%v", st.Stopped, st.Closed, st.Err))
+			}
+			return &Instance{
+				Body: body,
+				Check: func(x *vs.Exec) []Viol {
+					v := genericRules(x, nil)
+					// the warm-up handler invocation is not part of the judged sequence
+					y := *x
+					y.Log = nil
+					for _, e := range x.Log {
+						if (e.K == "h_enter" || e.K == "h_exit") && e.Arg(0) == "warm" {
+							continue
+						}
+						y.Log = append(y.Log, e)
+					}
+					return append(v, checkSeqResponses(h, &y)...)
+				},
+			}
+		},
+	}
+}
+
 func c01Seq(tokens []string, conc int, b Bounds) *Scenario {
 	return &Scenario{
 		Name:   fmt.Sprintf("seq{%s} conc=%d", tokensName(tokens), conc),
@@ -275,6 +327,7 @@ func c01Scenarios(tier string) []*Scenario {
 		out = append(out, c01Seq([]string{"[cc]", "c"}, 1, Bounds{2, -1, 0}))
 		out = append(out, c01Seq([]string{"n", "c"}, 1, Bounds{2, -1, 0}), c01Seq([]string{"[nc]", "[cn]"}, 1, Bounds{1, -1, 0}))
 		out = append(out, c01Seq([]string{"c", "n", "c"}, 2, Bounds{1, -1, 0}))
+		out = append(out, c01Restart([]string{"c"}, 2, Bounds{2, -1, 1}), c01Restart([]string{"c", "c"}, 2, Bounds{1, -1, 1}), c01Restart([]string{"n", "c"}, 1, Bounds{1, -1, 1}))
 		return out
 	}
 	for _, a := range c01Alphabet {
@@ -294,6 +347,9 @@ func c01Scenarios(tier string) []*Scenario {
 	for _, p := range [][]string{{"c", "c"}, {"[cn]", "c"}, {"c", "d"}, {"[cc]", "n"}, {"n", "[cc]"}, {"n", "c"}, {"[nc]", "[cn]"}, {"f", "c"}, {"[cd]", "c"}, {"c", "[cd]"}} {
 		out = append(out, c01Seq(p, 2, Bounds{3, -1, 1}))
 		out = append(out, c01Seq(p, 1, Bounds{2, -1, 0}))
+	}
+	for _, p := range [][]string{{"c"}, {"n"}, {"c", "c"}, {"n", "c"}, {"[cn]", "c"}} {
+		out = append(out, c01Restart(p, 2, Bounds{2, -1, 1}))
 	}
 	sub := []string{"c", "n", "[cn]", "[cc]", "d", "y", "z"}
 	for _, a := range sub {
